@@ -22,7 +22,7 @@ package fox
 //@ -- (or -1 when the fragment ends there), so that the '{' count up to `end` is the entry's index + 1
 //@ pred paramsOK(s string, ps []param) = len(ps) == cnt(s, len(s)) && (forall k int :: {ps[k]} 0 <= k && k < len(ps) ==> (ps[k].end == -1 ==> k == len(ps) - 1) && (ps[k].end != -1 ==> 0 < ps[k].end && ps[k].end <= len(s) && cnt(s, ps[k].end) == k + 1))
 
-//@ func parseWildcard props C03,C01 partial
+//@ func parseWildcard props C03,C01
 //@   ensures result == nil || fresh(result)
 //@   ensures @C01 params-ok: keyOK(segment) ==> paramsOK(segment, result)
 //@   loop 1: invariant params == nil || fresh(params)
@@ -43,12 +43,12 @@ package fox
 //@   ensures @C01 params-ok: keyOK(key) ==> paramsOK(key, result.params)
 //@   loop 1: invariant @C01 -1 <= paramChildIndex && paramChildIndex < len(children) && -1 <= wildcardChildIndex && wildcardChildIndex < len(children) && 0 <= rangeindex + 1 && rangeindex < len(children)
 
-//@ func (*node).clone props C03,C05 partial
+//@ func (*node).clone props C03,C05
 //@   requires n != nil
 //@   ensures result != nil && fresh(result) && same(result.key, n.key) && result.route == n.route && len(result.children) == len(n.children) && cap(result.children) == len(n.children) && (len(n.children) > 0 ==> fresh(result.children)) && result.childKeys == n.childKeys
 //@   ensures forall i int :: {result.children[i]} 0 <= i && i < len(n.children) ==> result.children[i] == n.children[i]
 
-//@ func (*node).getEdges props C03,C05 partial
+//@ func (*node).getEdges props C03,C05
 //@   requires n != nil
 //@   ensures len(result) == len(n.children) && cap(result) == len(result) && (len(result) > 0 ==> fresh(result))
 //@   ensures forall i int :: {result[i]} 0 <= i && i < len(n.children) ==> result[i] == n.children[i]
@@ -100,7 +100,7 @@ package fox
 //@   loop 1: invariant forall j int :: {r[j]} verb <= j && j <= rangeindex + verb ==> r[j].key != method
 //@   loop 1: decreases len(r) - verb - rangeindex
 
-//@ func (*tXn).addRoot props C03,C05,C02 partial
+//@ func (*tXn).addRoot props C03,C05,C02
 //@   requires t != nil
 //@   modifies t.root
 //@   ensures fresh(t.root) && len(t.root) == old(len(t.root)) + 1
